@@ -304,7 +304,8 @@ class FastTime:
         self.wake = threading.Event()
 
     def sleep(self, seconds):
-        self.wake.wait(seconds)
+        if self.wake.wait(seconds):
+            _time.sleep(0.002)          # woken for shutdown: poll fast, but do not spin
 
     def __getattr__(self, name):
         return getattr(_time, name)
